@@ -237,6 +237,10 @@ func (a *Analysis) propagate() {
 				for _, ins := range b.Instrs {
 					if ret, ok := ins.(*ssa.Return); ok {
 						for _, rv := range ret.Results {
+							// (a closure returned as a named func type is wrapped in a ChangeType)
+							if ct, ok := rv.(*ssa.ChangeType); ok {
+								rv = ct.X
+							}
 							if mc, ok := rv.(*ssa.MakeClosure); ok {
 								returned[fn] = append(returned[fn], mc)
 							}
@@ -245,19 +249,92 @@ func (a *Analysis) propagate() {
 				}
 			}
 		}
+		// where a stored value ends up: the package-level variable the address is rooted
+		// at, directly or through a local composite (array / struct / map literal) that
+		// is itself stored into a package-level variable by the same function
+		rootOf := func(addr ssa.Value) ssa.Value {
+			for d := 0; d < 8; d++ {
+				switch x := addr.(type) {
+				case *ssa.IndexAddr:
+					addr = x.X
+				case *ssa.FieldAddr:
+					addr = x.X
+				default:
+					return addr
+				}
+			}
+			return addr
+		}
+		derivesFrom := func(v, root ssa.Value) bool {
+			for d := 0; d < 6; d++ {
+				if v == root {
+					return true
+				}
+				switch x := v.(type) {
+				case *ssa.Slice:
+					v = x.X
+				case *ssa.ChangeType:
+					v = x.X
+				case *ssa.Convert:
+					v = x.X
+				case *ssa.MakeInterface:
+					v = x.X
+				case *ssa.UnOp:
+					v = x.X
+				default:
+					return false
+				}
+			}
+			return false
+		}
+		homesOf := func(fn *ssa.Function, root ssa.Value, depth int) []*ssa.Global {
+			var out []*ssa.Global
+			var walk func(root ssa.Value, depth int)
+			walk = func(root ssa.Value, depth int) {
+				if g, ok := root.(*ssa.Global); ok {
+					out = append(out, g)
+					return
+				}
+				if depth > 3 {
+					return
+				}
+				for _, b := range fn.Blocks {
+					for _, ins := range b.Instrs {
+						switch x := ins.(type) {
+						case *ssa.Store:
+							if derivesFrom(x.Val, root) && x.Val != x.Addr {
+								if r2 := rootOf(x.Addr); r2 != root {
+									walk(r2, depth+1)
+								}
+							}
+						case *ssa.MapUpdate:
+							if derivesFrom(x.Value, root) {
+								walk(x.Map, depth+1)
+							}
+						}
+					}
+				}
+			}
+			walk(root, depth)
+			return out
+		}
 		for _, fn := range all {
 			for _, b := range fn.Blocks {
 				for _, ins := range b.Instrs {
-					st, ok := ins.(*ssa.Store)
-					if !ok {
-						continue
-					}
-					g, isG := st.Addr.(*ssa.Global)
-					if !isG {
+					var val, dest ssa.Value
+					switch x := ins.(type) {
+					case *ssa.Store:
+						val, dest = x.Val, rootOf(x.Addr)
+					case *ssa.MapUpdate:
+						val, dest = x.Value, x.Map
+					default:
 						continue
 					}
 					var mcs []*ssa.MakeClosure
-					switch v := st.Val.(type) {
+					if ct, ok := val.(*ssa.ChangeType); ok {
+						val = ct.X
+					}
+					switch v := val.(type) {
 					case *ssa.MakeClosure:
 						mcs = append(mcs, v)
 					case *ssa.Call:
@@ -265,11 +342,16 @@ func (a *Analysis) propagate() {
 							mcs = append(mcs, returned[cal]...)
 						}
 					}
-					for _, mc := range mcs {
-						if closureHome[mc] == nil {
-							closureHome[mc] = map[*ssa.Global]bool{}
+					if len(mcs) == 0 {
+						continue
+					}
+					for _, g := range homesOf(fn, dest, 0) {
+						for _, mc := range mcs {
+							if closureHome[mc] == nil {
+								closureHome[mc] = map[*ssa.Global]bool{}
+							}
+							closureHome[mc][g] = true
 						}
-						closureHome[mc][g] = true
 					}
 				}
 			}
